@@ -12,7 +12,7 @@ import (
 func init() {
 	register(&propInfo{
 		id: "C06", fn: checkC06, multiConfig: true,
-		explanation: "All clauses are facts about the shape of connState.handleRequest and its helpers: (r1) on every path, the number of send calls is exactly one when the tag was started (carrying the tag value returned by recv and the message returned by cs.handle) or when recv reported a protocol error (carrying newErr(err)), and exactly zero on the connection-error, shutdown and duplicate-tag paths — counted by a min/max call-count dataflow, so a send inside a loop or on two branches of one path is seen; (r2) send on a connection is called only from handleRequest and Client.sendRecv, handler.handle only from connState.handle; (r3) every send site holds the connection's sendMu and send() hands header, fixed part and payload to a single vectored write; (r4) recvMu is not held (may-analysis) when cs.handle runs, and the spawn of a further receiver happens under the receive token, preceded by pendingWg.Add, conditioned on recvIdle == 0; (r5) ClearTag follows cs.handle and precedes the send, has no other caller, and cs.handle always yields a message because its deferred function recovers and substitutes EFAULT; (r6) no call that may reach an opaque backend method is made while fidMu, tagMu, sendMu or recvMu may be held (interprocedural may-held sets); (r7) a Tflush naming its own tag cannot wait for itself (shared with C14.r3). (r9) framing survives a rejected frame: every non-connection-error exit of recv has consumed exactly the frame's body (the rule of C02.r3), so the requests after an undecodable frame are still answered and no reply is made up from leftover bytes. (r10) stop waits for pendingWg before closing either transport, so replies of in-flight requests are still written (the rule of C05.r5); (r6, continued) lock regions that reach the backend are the documented ones (the pairing rule of C16.r8).",
+		explanation: "All clauses are facts about the shape of connState.handleRequest and its helpers: (r1) on every path, the number of send calls is exactly one when the tag was started (carrying the tag value returned by recv and the message returned by cs.handle) or when recv reported a protocol error (carrying newErr(err)), and exactly zero on the connection-error, shutdown and duplicate-tag paths — counted by a min/max call-count dataflow, so a send inside a loop or on two branches of one path is seen; (r2) send on a connection is called only from handleRequest and Client.sendRecv, handler.handle only from connState.handle; (r3) every send site holds the connection's sendMu and send() hands header, fixed part and payload to a single vectored write; (r4) recvMu is not held (may-analysis) when cs.handle runs, and the spawn of a further receiver happens under the receive token, preceded by pendingWg.Add, conditioned on recvIdle == 0; (r5) ClearTag follows cs.handle and precedes the send, has no other caller, and cs.handle always yields a message because its deferred function recovers and substitutes EFAULT; (r6) no call that may reach an opaque backend method is made while fidMu, tagMu, sendMu or recvMu may be held (interprocedural may-held sets); (r7) a Tflush naming its own tag cannot wait for itself (shared with C14.r3). (r9) framing survives a rejected frame: every non-connection-error exit of recv has consumed exactly the frame's body (the rule of C02.r3), so the requests after an undecodable frame are still answered and no reply is made up from leftover bytes. (r10) stop waits for pendingWg before closing either transport, so replies of in-flight requests are still written (the rule of C05.r5); (r6, continued) lock regions that reach the backend are the documented ones (the pairing rule of C16.r8). (r11) no request waits for a lock for ever: the server's lock-order graph is acyclic, a read lock is not re-acquired where a queued writer can split the two acquisitions, and two path nodes are locked parent before child only (the rules of C16.r1/r2).",
 		assumptions: []string{"fairness and actual progress under a scheduler are not decided; 'delays only what the contract orders' is decided in the necessary-condition form r4+r6 (no extra serialisation point exists)"},
 	})
 	register(&propInfo{
@@ -431,7 +431,10 @@ func checkC06(r *Run) {
 	// --- r6 (continued): no lock of a reference is held across a backend call beyond the
 	// path-tree locks of the File contract: lock regions that reach the backend release by
 	// defer at the end of the region that took them (C16.r8) ---
-	r.borrow(checkC16, map[string]string{"r8": "r6"})
+	// --- r11: a request that waits for a lock for ever is never answered: the lock-order
+	// graph of the server is acyclic, re-acquisition of a read lock that a queued writer can
+	// split included, and two path nodes are only locked parent before child (C16.r1/r2) ---
+	r.borrow(checkC16, map[string]string{"r8": "r6", "r1": "r11", "r2": "r11"})
 }
 
 func exitLabel(r *Run, ex *ExitRec) string {
